@@ -16,7 +16,7 @@ func init() {
 		Explanation: "PATH/typestate rules on system.Dialer: R-C11-1 after every fn(ctx,dctx) the cleanup closure of the same DialContext runs exactly once before the next init or any return and its error is returned; " +
 			"R-C11-2 every socket obtained from ndp.Listen/dialNDP/rtnetlink.Dial is, on every return path, returned, captured by the returned cleanup closure, closed or deferred-closed; " +
 			"R-C11-3 the cleanup closure leaves the group, closes, then restores autoconf on every path; R-C11-4 autoconf get precedes disable, restore writes the value read, restore closure returned iff disable did not fail fatally, tolerated-error table; " +
-			"R-C11-5 who may call State.SetIPv6Autoconf / write DialContext.done",
+			"R-C11-5 who may call State.SetIPv6Autoconf / write DialContext.done R-C11-6 the sysctl helpers return the os error as is or %w-wrapped, so the restore closure's tolerance tests can see it.",
 		Assumptions: []string{
 			"Go type checker and go/ssa construction are correct",
 			"(*ndp.Conn).Close releases the socket and its multicast memberships",
